@@ -9,6 +9,18 @@ MODELLED = ('Trusted: Coq 8.16.1 kernel (no axioms: every theorem in coq/Props/%
             'the Python harness abstraction/canonicalisation. ')
 
 CHECKS = {
+    'C10': dict(
+        text='Theorems over a state machine (regeneration table, file system, assertions, argv parsing) that hold '
+             'in every state of every history: only a regenerating step writes, and only its own reference; '
+             'assertions never change the table; after argv parsing exactly the named kinds regenerate; a '
+             'regenerated string/text/binary reference passes its own assertion (via the C04 theorems). Histories '
+             'of real assertions on a sandbox directory are compared step by step with the extracted model, and a '
+             'step oracle checks the property itself (including DataFrame/parquet assertions).',
+        note='DataFrame assertions (parquet round trip) are outside the model: oracle only. File-system and '
+             'encoding behaviour is observed, not modelled.',
+        technique='Coq proof (invariants over step, regen_then_passes via C04 refl/splitlines lemmas) + '
+                  'history-level extracted-model correspondence',
+        design='7 C10'),
     'C15': dict(
         text='Theorems over the model of check_binary_file (reported offset = first differing byte, lengths exact, '
              'for all byte strings) and of add_failures (a pass writes and names nothing; every named file is given '
